@@ -127,6 +127,9 @@ func main() {
 			break
 		}
 	}
+	if n := atomic.LoadInt32(&slow); n > 0 {
+		rep.Notes = append(rep.Notes, fmt.Sprintf("%d case(s) came back only after the first minute of the watchdog (a loaded machine, not a hang)", n))
+	}
 	var models [][]string
 	if *driver != "" && eng.UsesModel() {
 		var err error
